@@ -358,7 +358,10 @@ func (p *Program) knownPure(key string) bool {
 	for _, pre := range []string{"fmt.Sprint", "fmt.Errorf", "errors.", "strings.", "strconv.", "bytes.Equal", "bytes.Compare", "bytes.HasPrefix", "bytes.Index",
 		"unicode.", "utf8.", "unicode/utf8.", "math.", "math/bits.", "time.Now", "time.Since", "time.Duration", "(time.", "slices.", "sort.Search", "hash/crc32.ChecksumIEEE", "path.", "path/filepath.",
 		"(*sync.Mutex)", "(*sync.RWMutex)", "(sync.", "sync.", "(*sync.", "runtime.", "encoding/hex.", "encoding/base64.", "os.Getenv", "reflect.DeepEqual",
-		"(*github.com/WuKongIM/WuKongIM/pkg/wklog", "github.com/WuKongIM/WuKongIM/pkg/wklog", "go.uber.org/zap", "(*go.uber.org/zap", "(go.uber.org/zap", "log.", "(*log."} {
+		"(*github.com/WuKongIM/WuKongIM/pkg/wklog", "github.com/WuKongIM/WuKongIM/pkg/wklog", "go.uber.org/zap", "(*go.uber.org/zap", "(go.uber.org/zap", "log.", "(*log.",
+		// external storage engine: its calls return unconstrained values and never write WuKongIM's own heap objects
+		"github.com/cockroachdb/pebble",
+		"context.", "time.", "hash/crc32.", "hash/fnv.", "hash/maphash.", "math/rand"} {
 		if strings.HasPrefix(key, pre) {
 			return true
 		}
